@@ -8,8 +8,8 @@
    Guards: frames carry PID 256 or 257 (wf_frames); source level: plain two-byte
    AudioSpecificConfig, 0 <= ns, ns*90000 < 2^63, AAC frame + 7 < 8192, non-empty NAL (wf_mux). *)
 From Coq Require Import ZArith List Bool.
-From V Require Import Bytes C09Adts C09TsFrame C09TsWriter C09TsDemux C09TsHls
-  C09StreamProofs C09FrameProofs C09MuxProofs C09HlsProofs C09Proofs.
+From V Require Import Bytes C09Adts C09Asc C09TsFrame C09TsWriter C09TsDemux C09TsHls
+  C09StreamProofs C09FrameProofs C09MuxProofs C09AscProofs C09HlsProofs C09Proofs.
 Import ListNotations.
 Open Scope Z_scope.
 
@@ -106,6 +106,38 @@ Theorem C09_adts_chain : forall a pays, asc_plain a = true ->
 Proof. exact adts_chain. Qed.
 Print Assumptions C09_adts_chain.
 
+(* the ADTS header is a function of the AudioSpecificConfig.  [asc_env] describes a configuration
+   by its syntax elements (core object type 1..4, sampling index 0..12, channel configuration 0..7
+   incl. 7.1, signalling: plain / hierarchical SBR / hierarchical PS / backward-compatible sync
+   extension with sbrPresentFlag 0 / 1 / 1 + PS); [asc_encode] writes it (ISO/IEC 14496-3).  The
+   model of AudioSpecificConfig.Decode + ToAdtsHeader, run on those bytes, yields exactly the fields
+   [asc_of_env] announces: profile = core object type - 1, channel configuration, sampling index =
+   the core index unless an extension sampling frequency is explicitly signalled — in particular
+   sbrPresentFlag = 0 gives the core index.  (Finite domain: exhaustive computation, lifted.) *)
+Theorem C09_asc_adts_fields : forall e, wf_env e = true ->
+  asc_of_config (asc_encode e) = Some (asc_of_env e) /\ asc_plain (asc_of_env e) = true.
+Proof. exact asc_adts_fields. Qed.
+Print Assumptions C09_asc_adts_fields.
+
+(* ... hence every ADTS header in the audio elementary stream describes the configuration *)
+Theorem C09_adts_describes_config : forall e pays, wf_env e = true ->
+  Forall (fun p => zlen p + 7 < 8192) pays ->
+  exists a, asc_of_config (asc_encode e) = Some a /\
+    adts_parse (concat (map (adts_enc a) pays)) =
+    Some (map (fun p => {| ad_profile := e_aot e - 1; ad_sidx := env_adts_sfi e;
+                           ad_chan := e_chan e; ad_payload := p |}) pays).
+Proof. exact adts_describes_config. Qed.
+Print Assumptions C09_adts_describes_config.
+
+(* ... and the muxer given the configuration BYTES passes the oracle that expects [asc_of_env] *)
+Theorem C09_model_passes_config : forall e sps0 pps0 evs a, wf_env e = true ->
+  asc_of_config (asc_encode e) = Some a ->
+  forallb (fun af => wf_cframe (a_c af)) (annotate sps0 pps0 evs) = true ->
+  exists out, mux_events sps0 pps0 a evs = MuxBytes out /\
+              ok_muxa (asc_of_env e) (annotate sps0 pps0 evs) out = true.
+Proof. exact mux_config_passes. Qed.
+Print Assumptions C09_model_passes_config.
+
 (* the oracles applied to the implementation's bytes accept the model on every well-formed input *)
 Theorem C09_model_passes : forall fs, wf_frames fs = true -> ok_writer fs (ts_write_all fs) = true.
 Proof. exact writer_passes. Qed.
@@ -197,4 +229,12 @@ Example C09_nonvacuous_events :
   | MuxBytes out => ok_muxa a (annotate [] [] evs) out = true
   | MuxPanic => False
   end.
+Proof. vm_compute. repeat split; reflexivity. Qed.
+
+(* the repository's own vector 121056E500 (sync extension, sbrPresentFlag = 0): the core index 4 *)
+Example C09_nonvacuous_asc :
+  let e := {| e_aot := 2; e_sfi := 4; e_chan := 2; e_sig := 3; e_ext_sfi := 0 |} in
+  wf_env e = true /\ asc_encode e = [0x12; 0x10; 0x56; 0xE5; 0x00] /\
+  asc_of_env e = {| asc_obj := 2; asc_sidx := 4; asc_chan := 2 |} /\
+  asc_of_config [0x13; 0x90; 0x56; 0xE5; 0xA0] = Some {| asc_obj := 2; asc_sidx := 4; asc_chan := 2 |}.
 Proof. vm_compute. repeat split; reflexivity. Qed.
